@@ -136,11 +136,17 @@ def unreachableRest (c : Cfg) : Expr :=
 def matchesEither (p : Pat) : Expr :=
   .binop .or (.matches_ vSelf p) (.matches_ vOther p)
 
+/-- `#(if matches!(self, #inc) || matches!(__other, #inc) { return None; })*`. -/
+def ordIncStmts (vs : List Data) : List Stmt :=
+  match incomparablePattern vs with
+  | some p => [.ifRet (matchesEither p) .none_]
+  | none => []
+
 /-- `build_ord_signature`. `arms` is the concatenation of the `build_body`
 results. -/
 def ordSignature (c : Cfg) (item : Item) (dw : DeriveWhere) (t : Trait) (arms : List Arm) : Expr :=
   let equal := equalExpr t
-  if item.isIncomparable then .none_
+  if item.isIncomparable then Expr.none_
   else match item with
   | .enum_ disc _ _ vs =>
     if vs.length > 1 then
@@ -156,9 +162,7 @@ def ordSignature (c : Cfg) (item : Item) (dw : DeriveWhere) (t : Trait) (arms : 
         let eq' := if comparable.isEmpty t then equal else bodyEqual.getD equal
         .ifElse (matchesEither incP) .none_ eq'
       | _ =>
-        let incStmts : List Stmt := match inc with
-          | some p => [.ifRet (matchesEither p) .none_]
-          | none => []
+        let incStmts : List Stmt := ordIncStmts vs
         let m := ordFn t
         if c.nightly then
           match bodyEqual with
@@ -205,6 +209,18 @@ def partialEqBody (k : Nat) (d : Data) : List Arm :=
 def discEq : Expr :=
   .binop .eq (.call .memDiscriminant [vSelf]) (.call .memDiscriminant [vOther])
 
+/-- `#((#incomparable, ..) => false,)*`. -/
+def eqIncArms (vs : List Data) : List Arm :=
+  match incomparablePattern vs with
+  | some p => [.mk (.tuple [p, .rest]) (.litBool false) true]
+  | none => []
+
+/-- `#(if ::core::matches!(self, #incomparable) { return false; })*`. -/
+def eqIncStmts (vs : List Data) : List Stmt :=
+  match incomparablePattern vs with
+  | some p => [.ifRet (.matches_ vSelf p) (.litBool false)]
+  | none => []
+
 /-- `PartialEq::build_signature`, the `body`. -/
 def partialEqSignature (c : Cfg) (item : Item) (arms : List Arm) : Expr :=
   if item.isIncomparable then .litBool false
@@ -217,15 +233,9 @@ def partialEqSignature (c : Cfg) (item : Item) (arms : List Arm) : Expr :=
           let rest :=
             if vs.any (fun v => v.isEmpty .partialEq && !v.incomparable) then Expr.litBool true
             else unreachableRest c
-          let incArms : List Arm := match incomparablePattern vs with
-            | some p => [.mk (.tuple [p, .rest]) (.litBool false) true]
-            | none => []
-          .ifElse discEq (.match_ tupleSO (arms ++ incArms ++ [.mk .wild rest true])) (.litBool false)
+          .ifElse discEq (.match_ tupleSO (arms ++ eqIncArms vs ++ [.mk .wild rest true])) (.litBool false)
         else
-          let incStmts : List Stmt := match incomparablePattern vs with
-            | some p => [.ifRet (.matches_ vSelf p) (.litBool false)]
-            | none => []
-          .ifElse discEq (Blk.mk incStmts (.litBool true)).toExpr (.litBool false)
+          .ifElse discEq (Blk.mk (eqIncStmts vs) (.litBool true)).toExpr (.litBool false)
       else single
     | .item _ => single
 
@@ -308,9 +318,9 @@ def defaultBody (k : Nat) (d : Data) : List Expr :=
   if d.isDefault then
     match d.shape with
     | .named =>
-      [.structLit k ((d.iterFields .default).map fun (i, _) => .mk i (.call (.traitFn .default) []))]
+      [.structLit k ((d.iterFields .default).map fun (i, _) => .mk i (.defaultCall k i))]
     | .tuple =>
-      [.call (.ctor k) ((d.iterFields .default).map fun _ => .call (.traitFn .default) [])]
+      [.call (.ctor k) ((d.iterFields .default).map fun (i, _) => .defaultCall k i)]
     | .unit => [.unitCtor k]
     | .union => []   -- `unreachable!`, see `genPanic`
   else []
